@@ -322,6 +322,7 @@ class Model:
 # ------------------------------------------------------------------------------------------------
 RETRIES = True
 LIFETIMES = True
+PORT_LEVEL = True
 
 
 def gen_ops(rng: random.Random, nops: int) -> list[dict]:
@@ -365,6 +366,8 @@ def gen_ops(rng: random.Random, nops: int) -> list[dict]:
         elif kind == 'connect':
             op.update(pub=rng.randrange(64), b=rng.randrange(2), sub=rng.randrange(64), a=rng.randrange(2),
                       via=rng.choice(['subscribe', 'publish']))
+            if PORT_LEVEL and rng.random() < 0.12:
+                op['via'] = rng.choice(['publish-train', 'publish-label'])  # the port API reaches Train / Label ports too
             if RETRIES and rng.random() < 0.4:
                 op['retry'] = True
             if LIFETIMES and rng.random() < 0.3:
@@ -393,6 +396,10 @@ def gen_ops(rng: random.Random, nops: int) -> list[dict]:
 # ------------------------------------------------------------------------------------------------
 # execution against the real graph layer
 # ------------------------------------------------------------------------------------------------
+class _NotAttempted(Exception):
+    """A call that was refused for a reason outside the model before it touched the graph."""
+
+
 class World:
     """The real objects of one case; the harness owns every reference."""
 
@@ -661,10 +668,22 @@ def run_case(ops: list[dict], known_sites: typing.Sequence[str] = ()) -> dict:
                 if b is None or a is None or model.future_cycle(p, d):
                     continue
                 q = ('A', a)
+                if op['via'] in ('publish-train', 'publish-label'):
+                    if model.is_future(d):
+                        continue
+                    q = T if op['via'] == 'publish-train' else L
                 reason = model.check_edge(p, b, d, q)
                 where = f'step {step}: node{d}[{a}] <- node{p}[{b}] via {op["via"]}' + (
                     ' [placeholder]' if model.is_future(p) or model.is_future(d) else '')
-                if op['via'] == 'subscribe':
+                if q in (T, L):
+                    where = f'step {step}: node{p}[{b}].publish(node{d}, {"Train" if q == T else "Label"}) [port-level]' + (
+                        ' [placeholder]' if model.is_future(p) else '')
+                    if reason is None and any(model.trained(m) for m, mm in model.nodes.items()
+                                              if m != d and mm['kind'] == 'worker' and mm['group'] == model.nodes[d]['group']):
+                        reason = 'fork train collision'
+                    fn = lambda: world.nodes[p][b].publish(world.nodes[d], port.Train() if q == T else port.Label())  # noqa: E731
+                    stats['op:port-level-train-or-label'] += 1
+                elif op['via'] == 'subscribe':
                     fn = lambda: world.nodes[d][a].subscribe(world.nodes[p][b])  # noqa: E731
                 else:
                     fn = lambda: world.nodes[p][b].publish(world.nodes[d], port.Apply(a))  # noqa: E731
@@ -823,14 +842,23 @@ def run_case(ops: list[dict], known_sites: typing.Sequence[str] = ()) -> dict:
                         else:
                             rseg.subscribe(lseg.publisher)
                         return None
-                    except flow.TopologyError:
+                    except flow.TopologyError as exc:
+                        if (str(exc).startswith('Simple ') or (route == 'node.extend' and reason is None)) \
+                                and world.observe() == snapshot:
+                            # the bare node can not be traced as a segment of its own (shape, ambiguous or disconnected
+                            # tail): refused before anything was connected - not a verdict on the connection
+                            raise _NotAttempted() from None
                         if route.endswith('subscribe') or reason is not None or world.observe() == snapshot:
                             raise  # refused as a whole: judged as the refusal of the connection
                         retraced.append(True)  # connected; tracing the joint segment was refused (cycle, shape, ...)
                         return None
 
-                joint = call(connect_and_trace, where, reason, step,
-                             mutate=lambda: model.add_edge(ltail, 0, rhead, ('A', 0)))
+                try:
+                    joint = call(connect_and_trace, where, reason, step,
+                                 mutate=lambda: model.add_edge(ltail, 0, rhead, ('A', 0)))
+                except _NotAttempted:
+                    stats['extend:refused-for-shape'] += 1
+                    continue
                 stats['op:extend'] += 1
                 stats['extend:connection-refused'] += reason is not None
                 stats['extend:joint-trace-refused'] += bool(retraced)
